@@ -219,10 +219,23 @@ impl Type {
             Type::Mut(element) => Some(element.as_ref().clone()),
             Type::Multi(multi) => {
                 let mut iter = multi.iter();
-                let first = iter.next().unwrap().element_type()?;
+                let first = iter.next().unwrap().mut_element_type()?;
                 iter.map(Self::mut_element_type)
                     .try_fold(first, |acc, curr| Some(acc | curr?))
             }
+            _ => None,
+        }
+    }
+
+    /// Returns the type a value must match to be stored in a mut of this type:
+    /// for a union of muts it has to fit into every member
+    pub fn mut_assign_type(&self) -> Option<Type> {
+        match self {
+            Type::Mut(element) => Some(element.as_ref().clone()),
+            Type::Multi(multi) => multi
+                .iter()
+                .map(Self::mut_assign_type)
+                .try_fold(Type::Any, |acc, curr| Some(acc.conjoin(&curr?))),
             _ => None,
         }
     }
